@@ -9,7 +9,7 @@ import (
 )
 
 var collRaw = vkit.NewCollector("C17", "TestRawGraph", "acyclic upcaster multigraphs over 6 type names (edges oriented along a drawn permutation, several upcasters per source in drawn registration order, registered by RegisterUpcastFunc or WithUpcast options), raw upcasters that append their id to a trail and keep all other fields, at most one failing upcaster; in a third of the RegisterUpcastFunc cases a suffix of the edges (half of the time all of them, so the registry is empty when the replay starts) is registered by the replay callback itself while it handles a drawn event, and every later event must be upcast along them; one stored event of every name and of an unknown name with generated payloads. Oracle = model walk along first-registered upcasters: composed trail and final type, offset and timestamp unchanged, events without upcasters untouched, a failing step leaves the original event and calls the upcast error handler exactly once with the failing step's input. Non-trivial = a walk of length >=2 through a source with >=2 upcasters, or a failure at a non-first step.")
-var collTyped = vkit.NewCollector("C17", "TestTypedChain", "typed chain V1->V2->V3 (or V1->V2 only) registered with RegisterUpcast over stored V1/V2/V3/unrelated events with generated field values and malformed stored data; oracle: ReplayWithUpcast shows json.Marshal(f(decoded)) and the final type, or the original on any failing step with one error-handler call; SubscribeWithReplay[V3]/[V2] delivers exactly the fully upcast events. Non-trivial = >=2 events.")
+var collTyped = vkit.NewCollector("C17", "TestTypedChain", "typed chain V1->V2->V3 (or V1->V2 only) registered with RegisterUpcast over stored V1/V2/V3/unrelated events with generated field values and malformed stored data; the intermediate type V2 is deliberately not stable under a JSON round trip (an unexported field and an int held in an any field set by the first function, a decoder that rejects a == 13), so every step must work on the value decoded from the previous step's JSON; oracle: ReplayWithUpcast shows json.Marshal(f(decoded)) and the final type, or the original on any failing step with one error-handler call; SubscribeWithReplay[V3]/[V2] delivers exactly the fully upcast events. Non-trivial = >=2 events.")
 
 var collConc = vkit.NewCollector("C17", "TestConcurrentReplays", "the graphs, failing edges and payloads of TestRawGraph with the event list stored 1, 4 or 12 times over; 2-8 goroutines, started together, each run ReplayWithUpcast over the whole log 1-4 times on one bus. Oracle: every callback of every replay sees exactly the model walk a replay running alone sees (type, composed trail), every replay delivers every stored event once, and the (mutex-protected) upcast error handler is called once per failing event per replay with the failing step's error. Non-trivial = some event has a walk of length >= 2.")
 
